@@ -20,7 +20,7 @@ INFO = {
     "second parser with recording actions (called during parsing) must see, per reduction/shift, exactly the positions "
     "and layout_content of the corresponding tree node; a named-match grammar checks obj._pg_start/_pg_end_position.",
     "bounds": {"quick": {"N": 4, "K": 16}, "thorough": {"N": 5, "K": 32}},
-    "outside": "inputs longer than N; grammars outside the listed skeletons; custom layout_actions",
+    "outside": "inputs longer than N; grammars outside the listed skeletons; custom layout_actions; parsers built with debug=True (trace formatting of symbolic strings does not exhaust: measured 6 000 paths / 1 200 s at N=3 with unsupported-proxy leaves)",
     "assumptions": ["get_context stubbed; realize-atomic marks", "regex model for the comment terminal (ASCII input there)"],
 }
 
@@ -88,7 +88,7 @@ def _case(g, mode, lay, N, K):
     return {
         "name": "%s|%s|%s|N=%d" % (g.name, mode, lay, N),
         "params": {"grammar": g.short(), "gname": g.name, "mode": mode, "layout": lay, "N": N, "K": K},
-        "budget_s": 1200,
+        "budget_s": 1200 if N <= 4 else 3000,
     }
 
 
@@ -147,8 +147,9 @@ def build(params, symbolic):
 
     try:
         with build_guard(20):
+            dkw = {"debug": True} if params.get("debug") else {}
             if mode == "lr":
-                parser = Parser(grammar, build_tree=True)
+                parser = Parser(grammar, build_tree=True, **dkw)
                 g2 = Grammar.from_string(text)
                 if lay == "layout-cmt" and symbolic:
                     pyre.install(g2)
@@ -159,14 +160,14 @@ def build(params, symbolic):
                     actions[s.name] = make_action(s.name, s.name in g2.terminals)
                 parser2 = Parser(g2, actions=actions)
             else:
-                parser = GLRParser(grammar)
+                parser = GLRParser(grammar, **dkw)
                 parser2 = None
     except (SRConflicts, RRConflicts) as e:
         raise Skip("Parser() does not construct: %s" % type(e).__name__)
     skip = skip_fn(lay)
     stats = {}
     excluded = [] if params.get("no_skip") else excluded_inputs("C08", spec.short())
-    laychars = {"ws": "\n\r\t ", "layout-str": " \t", "layout-cmt": " \t\n\r"}[lay]
+    laychars = {"ws": "\n\r\t ", "layout-str": " \t", "layout-cmt": " \t\n\r\x0b\x0c\x1c\x1d\x1e\x1f"}[lay]
 
     def check_tree(root, w, n):
         terms = []
